@@ -33,8 +33,8 @@ ASSUMPTIONS = [
     "creg integers read bit 0 as the low-order bit (OpenQASM specification)",
     "Cirq semantics taken from the documentation: KeyCondition fires when any bit of the latest record is non-zero; "
     "sympy Eq(key, c) compares the big-endian integer of the latest record; invert_mask flips the recorded bit only",
-    "unitary tolerance 1e-6 at precision >= 10, 10^(1-p) * #emitted gate statements below; distributions TV <= 1e-5 "
-    "(same scaling)",
+    "unitary tolerance 1e-6 at precision >= 10, 2*pi*10^-p per printed angle below; distributions TV <= 1e-5 (twice "
+    "the unitary tolerance below precision 10)",
 ]
 MIN_EVAL = {"text-parses": 300, "unitary==reference": 150, "distribution==reference": 60, "creg-mapping": 60,
             "rejection-raises": 20}
@@ -72,6 +72,7 @@ K_MULTI = "C19:classical-control-multi-statement-subop"
 K_NODECOMP = "C19:classical-control-subop-not-decomposed"
 K_EMPTY = "C19:classical-control-empty-subop-dangling-if"
 K_DIAG3 = "C19:three-qubit-diagonal-decompose-reorders-qubits"
+K_CTRLSNAP = "C19:multi-controlled-rotation-snapped-to-identity"
 
 STRICT_STDGATES = True      # `sxdg` is not part of OpenQASM 3 stdgates.inc
 PRECISIONS = [3, 6, 10, 10, 10, 10, 15]
@@ -134,7 +135,7 @@ def make_qubits(rng, n):
         qs = [cirq.GridQubit(r, c) for r, c in pick]
         keys = pick
     else:
-        pool = ["a", "b", "c", "d", "e", "q1", "q2", "q10", "q11", "q20"]
+        pool = ["alice", "bob", "carol", "dave", "eve", "q1", "q2", "q10", "q11", "q20"]  # disjoint from the key pools
         names = [pool[int(i)] for i in rng.choice(len(pool), size=n, replace=False)]
         qs = [cirq.NamedQubit(s) for s in names]
         keys = [_natural_key(s) for s in names]
@@ -243,9 +244,13 @@ def read_text(ctx, text, version, wit):
 
 
 def tolerance(precision, prog):
+    """1e-6 at precision >= 10.  Below: every printed angle is off by at most 10^-p half turns (0.5 from rounding, up to 1
+    where an exponent within 10^-p of a special value is snapped to it; `u2` carries one implicit angle) = pi*10^-p rad,
+    which moves matrix entries by at most that much; a factor 2 for the phase alignment."""
     if precision >= 10:
         return 1e-6
-    return max(1e-6, 10.0 ** (1 - precision) * max(1, prog.n_gate_statements))
+    n = prog.n_params + prog.gate_names_used.get("u2", 0)
+    return max(1e-6, 2 * math.pi * 10.0 ** (-precision) * max(1, n))
 
 
 # ------------------------------------------------------------------------------------------------ abstract programs
@@ -481,6 +486,29 @@ def _diag3_as_decomposed(step, qs):
     return s2
 
 
+def _explained_by_ctrl_snap(steps, qs, ops, order, got, tol):
+    """Classification only (consults Cirq): substitute, for every controlled step, the matrix of Cirq's own one-level
+    decomposition of that operation; the known inaccuracy moves it by < 5e-4.  True when the text then matches."""
+    import cirq
+
+    alt, changed = [], False
+    for s, op in zip(steps, ops):
+        if s["cvals"]:
+            try:
+                m = cirq.Circuit(cirq.decompose_once(op)).unitary(qubit_order=list(op.qubits))
+            except Exception:
+                return False
+            dm = L.phase_diff(m, s["matrix"])
+            if dm > 5e-4:
+                return False
+            if dm > 1e-7:
+                s = dict(s)
+                s["matrix"] = L.phase_align(m, s["matrix"])
+                changed = True
+        alt.append(s)
+    return changed and L.phase_diff(got, ref_unitary(alt, order)) <= tol
+
+
 def _unitary_case(ctx, rng, case, steps, n, section, force_version=None, force_precision=None):
     import cirq
 
@@ -524,6 +552,10 @@ def _unitary_case(ctx, rng, case, steps, n, section, force_version=None, force_p
         _fail(ctx, "unitary==reference", K_DIAG3, "text unitary differs from the catalogue product by %.3g; explained by "
               "ThreeQubitDiagonalGate._decompose_ reordering its qubits for adjacency without permuting the angles" % d,
               text=text[:3000], **wit)
+    elif d <= 1e-3 and _explained_by_ctrl_snap(steps, qs, ops, order, got, tol):
+        _fail(ctx, "unitary==reference", K_CTRLSNAP, "text unitary differs from the catalogue product by %.3g (tol %.1g); "
+              "explained by the multi-controlled decomposition snapping a near-identity rotation (|m00| within 1e-9 of 1 "
+              "in _decompose_abc) to the identity" % (d, tol), text=text[:3000], **wit)
     else:
         names = sorted(set(s["spec"] for s in steps))
         mech = "C19:unitary-mismatch:" + (names[0] if len(names) == 1 else "circuit")
@@ -697,6 +729,9 @@ def _dist_case(ctx, rng, case, steps, n, section, version=None, precision=None, 
         if s["t"] == "m" and s["key"] in default_keys:
             keymap[s["key"]] = cirq.measurement_key_name(op)
     real_keys = [keymap.get(k, k) for k in keys]
+    if len(set(real_keys)) != len(real_keys):
+        ctx.reject("harness:default-key-collides-with-explicit-key")
+        return
     real_widths = {keymap.get(k, k): w for k, w in widths.items()}
     wit = dict(program=[describe(s) for s in steps], qubits=[repr(q) for q in qs], declared_order=order, order_kind=okind,
                version=version, precision=precision)
@@ -731,7 +766,7 @@ def _dist_case(ctx, rng, case, steps, n, section, version=None, precision=None, 
                 alt = explain(None, text)
             except R.QasmError:
                 alt = None
-            ptol = 1e-5 if precision >= 10 else max(1e-5, 2 * 10.0 ** (1 - precision) * max(1, text.count(";")))
+            ptol = 1e-5 if precision >= 10 else max(1e-5, 4 * math.pi * 10.0 ** (-precision) * max(1, 3 * text.count(";")))
             if alt is not None and L.tv_distance(alt, want) <= ptol:
                 _fail(ctx, "text-parses", mech, "emitted text is not valid OpenQASM: %s" % parse_err, text=text[:2500], **wit)
                 return
@@ -749,7 +784,7 @@ def _dist_case(ctx, rng, case, steps, n, section, version=None, precision=None, 
     if mapping is None:
         return
     got = reader_dist_by_key(prog, mapping, real_keys)
-    tol = max(1e-5, 2 * tolerance(precision, prog)) if precision < 10 else 1e-5
+    tol = max(1e-5, 2 * tolerance(precision, prog)) if precision < 10 else 1e-5  # TV <= 2 * operator error
     tv = L.tv_distance(got, want)
     if tv <= tol:
         ctx.ok("distribution==reference")
@@ -1125,12 +1160,12 @@ def sec_reject(ctx, rng, case):
 
 
 SECTIONS = [
-    ("unitary", sec_unitary, 4200, 60000, 3.0),
-    ("mnemonic", sec_mnemonic, 4200, 60000, 2.0),
-    ("measure", sec_measure, 2800, 40000, 1.5),
-    ("control", sec_control, 2800, 40000, 1.5),
-    ("control_multibit", sec_control_multibit, 560, 8000, 0.5),
-    ("control_badkey", sec_control_badkey, 560, 8000, 0.5),
-    ("control_subop", sec_control_subop, 300, 4000, 0.4),
-    ("reject", sec_reject, 270, 2700, 0.2),
+    ("unitary", sec_unitary, 9800, 120000, 3.0),
+    ("mnemonic", sec_mnemonic, 9800, 80000, 2.0),
+    ("measure", sec_measure, 7000, 60000, 1.5),
+    ("control", sec_control, 7000, 60000, 1.5),
+    ("control_multibit", sec_control_multibit, 1120, 8000, 0.5),
+    ("control_badkey", sec_control_badkey, 1120, 8000, 0.5),
+    ("control_subop", sec_control_subop, 600, 4000, 0.4),
+    ("reject", sec_reject, 360, 2700, 0.2),
 ]
